@@ -48,6 +48,7 @@ def build_program(r):
     targets = []       # lvalue expr in main
     watch = []         # (lvalue, type, initial) printed afterwards besides targets
     used_rec = used_arr = 0
+    recs = []          # (index, fields) of record variables that hold a target
     noinit = {}        # repr(lvalue) -> default value: not assigned before the INPUT
     for i, t in enumerate(tys):
         # (not in a GOSUB routine: the routine's text follows the tail that
@@ -75,6 +76,20 @@ def build_program(r):
             targets.append(['idx', name, [['lit', '%', lb + 1]]])
             watch.append((['idx', name, [['lit', '%', lb]]], t))
             watch.append((['idx', name, [['lit', '%', lb + 2]]], t))
+        elif kind == 'field' and recs and r.random() < 0.5:
+            # a second field of a record variable that is already a target
+            # (another type, another offset)
+            j, fields = r.choice(recs)
+            cand = [(fn, ft) for fn, ft in fields
+                    if not any(x == ['fld', ['var', f'rv{j}'], [fn]] for x in targets)]
+            if cand:
+                fn, ft = r.choice(cand)
+                tys[i] = ft
+                lv = ['fld', ['var', f'rv{j}'], [fn]]
+                targets.append(lv)
+                watch[:] = [(w, wt) for w, wt in watch if w != lv]
+            else:
+                targets.append(['var', f't{i}{t}'])
         else:
             used_rec += 1
             tn = f'rc{i}'
@@ -84,6 +99,7 @@ def build_program(r):
             main.append({'k': 'dim', 'shared': False, 'name': vn, 'bounds': None,
                          'ty': 'T:' + tn, 'as': True})
             targets.append(['fld', ['var', vn], [f'fb{i}']])
+            recs.append((i, fields))
             watch.append((['fld', ['var', vn], [f'fa{i}']], fields[0][1]))
             watch.append((['fld', ['var', vn], [f'fc{i}']], fields[2][1]))
     dep = None
